@@ -288,6 +288,17 @@ def run_case(case: dict, ctx: Ctx) -> None:
                 raise StopSequence()  # later observations would only repeat the consequences of this one
         since.clear()
 
+    def pf_state(simu):
+        n = simu.mesh.Nn * dim
+        return 2e-3 * np.random.default_rng(n).normal(size=n)
+
+    def pf_reset(simu):
+        simu._Set_solutions(simu.ProblemTypes.elastic, pf_state(simu))
+        simu._Set_solutions(simu.ProblemTypes.damage, np.zeros(simu.mesh.Nn))
+        simu.Need_Update()
+        simu.Get_K_C_M_F(simu.ProblemTypes.elastic)
+        simu.Get_K_C_M_F(simu.ProblemTypes.damage)
+
     def judge(err, tol, what, solve_twin, values=()):
         """A solution mismatch only counts where the configuration determines the solution: when a second twin whose node
         coordinates are moved by one unit of round-off answers as differently as the live object does (rigid mode left free by
@@ -321,23 +332,33 @@ def run_case(case: dict, ctx: Ctx) -> None:
         with quiet():
             if kind in NONLINEAR:
                 if kind == "phasefield":
+                    # both objects hold the same non-zero displacement (and zero damage): the damage system depends on it through
+                    # psi+, so a change of the elastic law must reach BOTH assembled systems
+                    ufix = pf_state(twin)
+                    if not np.array_equal(np.asarray(live._Get_u_n(live.ProblemTypes.elastic)), pf_state(live)):
+                        # (first observation, or a new mesh: the live object is brought to that state once, flags raised and lowered)
+                        pf_reset(live)
+                    twin._Set_solutions(twin.ProblemTypes.elastic, ufix.copy())
+                    twin.Need_Update()
                     Kl = live.Get_K_C_M_F(live.ProblemTypes.elastic)[0]
                     Kt = twin.Get_K_C_M_F(twin.ProblemTypes.elastic)[0]
                     ctx.check("twin-matrices", relerr(Kl.toarray(), Kt.toarray()), 1e-11, k + "/K", history=list(history))
+                    Dl = live.Get_K_C_M_F(live.ProblemTypes.damage)
+                    Dt = twin.Get_K_C_M_F(twin.ProblemTypes.damage)
+                    ctx.check("twin-matrices", relerr(Dl[0].toarray(), Dt[0].toarray()), 1e-11, k + "/K-damage", history=list(history))
+                    ctx.check("twin-matrices", relerr(Dl[3].toarray(), Dt[3].toarray(), scale=np.abs(Dt[3].toarray()).max() + 1e-300), 1e-11, k + "/F-damage",
+                              history=list(history))
                     ul, dl, _ = live.Solve()
                     ut, dt_, _ = twin.Solve()
                     def again(t):
+                        t._Set_solutions(t.ProblemTypes.elastic, pf_state(t))
+                        t.Need_Update()
                         u2, d2, _ = t.Solve()
                         return max(relerr(u2, ut), relerr(d2, dt_, scale=1.0))
                     judge(max(relerr(ul, ut), relerr(dl, dt_, scale=1.0)), 1e-8, k + "/solution", again, (ul, ut, dl, dt_))
-                    # back to the zero state (the observation must not become part of the configuration)
-                    for s in (live,):
-                        s._Set_solutions(s.ProblemTypes.elastic, np.zeros_like(ul))
-                        s._Set_solutions(s.ProblemTypes.damage, np.zeros_like(dl))
-                        s.Need_Update()
-                        # ... and assembled again, so that the flags are down: the next mutation has to raise them itself
-                        s.Get_K_C_M_F(s.ProblemTypes.elastic)
-                        s.Get_K_C_M_F(s.ProblemTypes.damage)
+                    # back to the reference state (the observation must not become part of the configuration), assembled again, so
+                    # that the flags are down: the next mutation has to raise them itself
+                    pf_reset(live)
                 else:
                     if kind == "hyperelastic" and cfg["algo"][0] == "hyper":
                         # the assembled operators of the zero state themselves (the mass matrix enters a step only through dt^-2)
